@@ -196,7 +196,7 @@ def run_multiple(chk, want):
                     if name == 'swap_check':
                         msa.swap_check()
                     elif name == 'iterate_clusters':
-                        getattr(msa, name)(rng.choice([0.3, 0.5, 0.7]), **ckw)
+                        getattr(msa, name)(rng.choice([0.3, 0.5, 0.7, 0.9, 1.0]), **ckw)
                     else:
                         getattr(msa, name)(**ckw)
                     log.append(name)
@@ -289,20 +289,33 @@ def run_wordlist_alignments(chk):
     n = chk.n(120, 3200)
     for it in range(n):
         d = wlgen.gen_wordlist(rng, with_tokens=True, with_cogid=True, min_langs=2, max_langs=5, max_concepts=4)
+        ref = 'cogid'
+        if rng.random() < 0.35:
+            # a second grouping of the words (another cognate coding of the same data): aligning by it must treat ITS sets
+            ci = d[0].index('concept')
+            d[0] = d[0] + ['altid']
+            regroup = {}
+            for k in sorted(k for k in d if k != 0):
+                key = (d[k][ci], rng.randrange(2))
+                regroup.setdefault(key, len(regroup) + 1)
+                d[k] = d[k] + [regroup[key]]
+            ref = 'altid'
         try:
             alm = Alignments(d, ref='cogid')
+            if ref != 'cogid':
+                alm.add_alignments(ref=ref)
             alm.align(method=rng.choice(['progressive', 'library']), mode=rng.choice(['global', 'overlap', 'dialign']),
-                      iteration=rng.random() < 0.5)
+                      iteration=rng.random() < 0.5, **({'ref': ref} if ref != 'cogid' else {}))
         except Exception as ex:  # noqa
             fails.append((d, 'raised %s: %s' % (type(ex).__name__, str(ex)[:100])))
             continue
-        ti, gi = d[0].index('tokens'), d[0].index('cogid')
+        ti, gi = d[0].index('tokens'), d[0].index(ref)
         sets = {}
         for k in d:
             if k != 0:
                 sets.setdefault(d[k][gi], []).append(k)
         chk.count(('alignments', tuple(sorted((k, tuple(map(str, v))) for k, v in d.items()))), any(len(v) > 1 for v in sets.values()),
-                  branch='Alignments.align')
+                  branch=['Alignments.align', 'Alignments.align:ref=' + ref])
         e = None
         for g, ks in sets.items():
             rows = {k: list(alm[k, 'alignment']) for k in ks}
@@ -331,6 +344,21 @@ def run_mult_align(chk):
         seqs = [[rng.choice(alpha) for _ in range(rng.randrange(1, 9))] for _ in range(k)]
         if rng.random() < 0.3:
             seqs.append(list(seqs[0]))
+        if rng.random() < 0.35:
+            # segments of more than one character: two inputs that are different token lists but spell the same string
+            # (ts a n / t s a n) are different sequences
+            w = [rng.choice('tsa') for _ in range(rng.randrange(3, 7))]
+            for _ in range(2):
+                cut, seg = [], []
+                for ch in w:
+                    seg.append(ch)
+                    if rng.random() < 0.6:
+                        cut.append(''.join(seg))
+                        seg = []
+                if seg:
+                    cut.append(''.join(seg))
+                seqs.insert(rng.randrange(len(seqs) + 1), cut)
+            chk.hist['mult_align: inputs with multi-character segments'] += 1
         try:
             out = mult_align(seqs, tree_calc=rng.choice(['upgma', 'neighbor']), gop=rng.choice([-1, -2]), scale=rng.choice([0.5, 1.0]))
         except Exception as ex:  # noqa
